@@ -380,10 +380,21 @@ def isCall : Expr → Bool
   | .call _ _ _ _ => true
   | _ => false
 
-/-- push `value` onto the statement list (in order): calls become call statements, other values
+/-- `uses_discard_variable` (F36 fix): the expression mentions an identifier named `_`
+(`FindVariables` through `DefaultVisitor`; expressions hidden in types are not looked at by this model) -/
+def usesDiscard (e : Expr) : Bool := e.refs (.ref "_")
+
+/-- `used_later[i]`: some LATER expression mentions `_` -/
+def usedLaterFlags : List Expr → List Bool
+  | [] => []
+  | _ :: rest => rest.any usesDiscard :: usedLaterFlags rest
+
+/-- push `value` onto the statement list (in order): calls become call statements; a value that a later
+expression could see through `_` gets its own `do local _ = value end` (F36 fix); other values
 extend a trailing `local _ = …` or start a new one -/
-def pushValue (stmts : List Stmt) (value : Expr) : List Stmt :=
+def pushValue (stmts : List Stmt) (value : Expr) (usedLater : Bool) : List Stmt :=
   if isCall value then stmts ++ [.callStmt value]
+  else if usedLater then stmts ++ [.doBlock (.mk [.localAssign .loc [.mk "_" none] [value]] none)]
   else
     match stmts.getLast? with
     | some (.localAssign kind names values) =>
@@ -391,7 +402,7 @@ def pushValue (stmts : List Stmt) (value : Expr) : List Stmt :=
     | _ => stmts ++ [.localAssign .loc [.mk "_" none] [value]]
 
 def asStatements (es : List Expr) : List Stmt :=
-  es.foldl (fun acc e => pushValue acc (getInner e)) []
+  (es.zip (usedLaterFlags es)).foldl (fun acc p => pushValue acc (getInner p.1) p.2) []
 
 def expressionsAsStatement (es : List Expr) : Stmt :=
   match asStatements es with
@@ -457,12 +468,6 @@ def wrapLocal : Stmt → Stmt
   | .localAssign k ns vs => .doBlock (.mk [.localAssign k ns vs] none)
   | other => other
 
-/-- instrumentation (F36): a kept non-call argument becomes `local _ = …` inside the `do` block and a LATER
-kept argument mentions the variable `_` — it would read the new local (conservative: any later kept argument) -/
-def underscoreLeak : List Expr → Bool
-  | [] => false
-  | e :: rest => (!isCall (getInner e) && rest.any fun r => r.refs (.ref "_")) || underscoreLeak rest
-
 /-- one round of the loop of `process_statement`: the matched call statement becomes the statement
 built from its kept arguments; a lone `local _ = …` is wrapped in `do … end` (F31 fix) -/
 def processStatementOnce (M : Matcher) (preserve : Bool) : Stmt → St → Stmt × St
@@ -470,8 +475,7 @@ def processStatementOnce (M : Matcher) (preserve : Bool) : Stmt → St → Stmt 
     if M.matchesPrefix (isUsed st.scopes) f then
       if preserve then
         (wrapLocal (expressionsAsStatement (preserveArgumentsSideEffects kind args)),
-          { st with unmodelled := st.unmodelled || argsUnmodelled kind args }.flagIf
-            (underscoreLeak (preserveArgumentsSideEffects kind args)) "underscore-in-args")
+          { st with unmodelled := st.unmodelled || argsUnmodelled kind args })
       else (.doBlock (.mk [] none), st)
     else (.callStmt (.call f none kind args), st)
   | s, st => (s, st)
@@ -523,7 +527,7 @@ def processExpression (M : Matcher) (preserve : Bool) (e : Expr) (st : St) : Exp
 The flags are the local hypotheses of the `_partial` theorems (`C17/Thm.lean`) evaluated at every
 node the REAL traversal reaches (including nodes produced by earlier rewrites). They never
 influence the tree. Left after the fixes of F19 F30 F31 F32: `zero-arg-expr` (F18, set in
-`processExpressionOnce`), `underscore-in-args` (F36, set in `processStatementOnce`), `multi-position` (F33),
+`processExpressionOnce`), `multi-position` (F33),
 `global-write` (outside the quantifier). -/
 
 /-- a matched call (no method) -/
